@@ -2607,6 +2607,10 @@ class _ExtMixin:
     def x_next(self, a, k, n):
         items = self.seq_items(a[0], n)
         if items is None:
+            src = self.simp(a[0])
+            if len(a) == 1 and isinstance(src, Op) and src.op.startswith("call:"):
+                # first element of a fresh external iterable (next(os.walk(p))); an empty one raises StopIteration
+                return Op("elem", src, Const(0))
             return Op("call:next", *a)
         has_default = len(a) > 1
         res = a[1] if has_default else Undef("StopIteration")
